@@ -397,6 +397,7 @@ static inline long sys_futex(volatile uint32_t *addr, int op, uint32_t val)
 static void park_self(struct sthr *me)
 {
 	int spins = 0;
+	int saved_errno = errno;	/* the simulated thread's errno must not see our syscalls */
 	while (__atomic_load_n(&me->park, __ATOMIC_ACQUIRE) == 0) {
 		if (spins++ < 200) {
 			__builtin_ia32_pause();
@@ -405,12 +406,15 @@ static void park_self(struct sthr *me)
 		sys_futex(&me->park, FUTEX_WAIT, 0);
 	}
 	__atomic_store_n(&me->park, 0, __ATOMIC_RELAXED);
+	errno = saved_errno;
 }
 
 static void unpark(struct sthr *t)
 {
+	int saved_errno = errno;
 	__atomic_store_n(&t->park, 1, __ATOMIC_RELEASE);
 	sys_futex(&t->park, FUTEX_WAKE, 1);
+	errno = saved_errno;
 }
 
 /* ------------------------------------------------------------------ store buffers */
